@@ -18,10 +18,13 @@ package interpreter
 //@ ensures [other] !isNum(value) && !isStr(value) && !isI64(value) ==> result1 != nil
 //@ ensures [err] result1 == nil || isErr(result1)
 
-//@ func toInt64 [C02,C11]
+//@ func toInt64 [C02,C11,C10]
 //@ reveal intOK intOf ofInt f2i64
 //@ ensures [accept] isNum(value) ==> ((result1 == nil) == intOK(num(value)))
 //@ ensures [value] isNum(value) && result1 == nil ==> result0 == intOf(num(value))
+// a string operand is read like a numeric literal of the same text: both digit scripts, through the one transliteration
+//@ ensures [straccept] isStr(value) ==> ((result1 == nil) == (ext.parsefloat.ok(trStr(str(value))) && intOK(ext.parsefloat.val(trStr(str(value))))))
+//@ ensures [strvalue] isStr(value) && result1 == nil ==> result0 == intOf(ext.parsefloat.val(trStr(str(value))))
 //@ ensures [other] !isNum(value) && !isStr(value) && !isI64(value) ==> result1 != nil
 //@ ensures [err] result1 == nil || isErr(result1)
 
